@@ -440,7 +440,7 @@ theorem queueShift_eff (q : DecodeQueue) (h : DInv q) :
   have hle := h.bnd.le
   have htot := h.bnd.tot
   have hq : q = { q with ring := q.ring, st := { q.st with curr := q.st.curr - 0, pos := q.st.pos } } := by
-    cases q; rename_i r st c b; cases st; rfl
+    cases q; rename_i r st c b cm; cases st; rfl
   unfold queueShift
   simp only
   by_cases hc : q.st.curr = 0
